@@ -230,6 +230,14 @@ func appendSnapshotFlavors(b []byte, s *slip.Scope) []byte {
 	for _, f := range fa {
 		b = append(b, '\n')
 		b = pp.Append(b, s, f.LoadForm())
+		// The methods defined on the flavor itself, not the inherited ones.
+		for _, name := range f.MethodNames() {
+			for _, daemon := range []string{":primary", ":before", ":after"} {
+				if dml := f.DefMethodList(string(name.(slip.Symbol)), daemon, false); dml != nil {
+					b = pp.Append(b, s, dml)
+				}
+			}
+		}
 	}
 	return b
 }
